@@ -39,12 +39,94 @@ func stripIface(v ssa.Value) ssa.Value {
 	}
 }
 
+// poolGetter: fn only takes an object out of a pool and hands it to its caller
+// (every return value is the result of one pool.Get behind assertions); resets
+// reports whether it Resets the object on the way. Calls of such a wrapper are
+// the acquisitions the typestate is checked for, in the callers.
+type poolWrapper struct {
+	pool   *ssa.Global
+	resets bool
+}
+
+func (c *Ctx) poolGetter(fn *ssa.Function) (poolWrapper, bool) {
+	if fn == nil || len(fn.Blocks) == 0 || !c.P.InModule(fn) {
+		return poolWrapper{}, false
+	}
+	var get *ssa.Call
+	var pool *ssa.Global
+	resets := false
+	for _, b := range fn.Blocks {
+		for _, in := range b.Instrs {
+			switch x := in.(type) {
+			case *ssa.Call:
+				if p, ok := poolOf(x.Common(), "Get"); ok {
+					if get != nil {
+						return poolWrapper{}, false
+					}
+					get, pool = x, p
+					continue
+				}
+				cc := x.Common()
+				if !cc.IsInvoke() && len(cc.Args) > 0 && cc.StaticCallee() != nil && cc.StaticCallee().Name() == "Reset" && get != nil && stripIface(cc.Args[0]) == ssa.Value(get) {
+					resets = true
+					continue
+				}
+				return poolWrapper{}, false // does something else: not a pure wrapper
+			case *ssa.Store, *ssa.MapUpdate, *ssa.Send, *ssa.Go, *ssa.Defer:
+				return poolWrapper{}, false
+			}
+		}
+	}
+	if get == nil {
+		return poolWrapper{}, false
+	}
+	nret := 0
+	for _, b := range fn.Blocks {
+		if r, ok := b.Instrs[len(b.Instrs)-1].(*ssa.Return); ok {
+			nret++
+			if len(r.Results) != 1 || stripIface(r.Results[0]) != ssa.Value(get) {
+				return poolWrapper{}, false
+			}
+		}
+	}
+	if nret != 1 {
+		resets = resets && len(fn.Blocks) == 1
+	}
+	return poolWrapper{pool, resets}, nret > 0
+}
+
+// poolPutter: fn puts its idx-th parameter back into a pool (a release wrapper).
+func (c *Ctx) poolPutter(fn *ssa.Function, idx int) (*ssa.Global, bool) {
+	if fn == nil || len(fn.Blocks) == 0 || !c.P.InModule(fn) || idx >= len(fn.Params) {
+		return nil, false
+	}
+	for _, b := range fn.Blocks {
+		for _, in := range b.Instrs {
+			ci, ok := in.(ssa.CallInstruction)
+			if !ok {
+				continue
+			}
+			if p, ok := poolOf(ci.Common(), "Put"); ok && len(ci.Common().Args) > 1 && stripIface(ci.Common().Args[1]) == ssa.Value(fn.Params[idx]) {
+				// on every path: the wrapper is straight-line or the Put is in the entry block / deferred
+				if len(fn.Blocks) == 1 || b == fn.Blocks[0] {
+					return p, true
+				}
+			}
+		}
+	}
+	return nil, false
+}
+
 // Pools implements R-POOL over the given packages.
 func (c *Ctx) Pools(pkgs ...string) []core.Ob {
 	var obs []core.Ob
 	nGets := 0
 	for _, fn := range c.Funcs() {
 		if !inPkgs(fn, pkgs...) {
+			continue
+		}
+		if _, isWrapper := c.poolGetter(fn); isWrapper {
+			// the acquisition is checked at the wrapper's call sites
 			continue
 		}
 		k := 0
@@ -55,12 +137,18 @@ func (c *Ctx) Pools(pkgs ...string) []core.Ob {
 					continue
 				}
 				pool, ok := poolOf(call.Common(), "Get")
+				resets := false
+				if !ok {
+					if w, isW := c.poolGetter(call.Common().StaticCallee()); isW {
+						pool, resets, ok = w.pool, w.resets, true
+					}
+				}
 				if !ok {
 					continue
 				}
 				k++
 				nGets++
-				obs = append(obs, c.poolObject(fn, call, pool, k)...)
+				obs = append(obs, c.poolObject(fn, call, pool, k, resets)...)
 			}
 		}
 	}
@@ -72,7 +160,7 @@ func (c *Ctx) Pools(pkgs ...string) []core.Ob {
 	return obs
 }
 
-func (c *Ctx) poolObject(fn *ssa.Function, get *ssa.Call, pool *ssa.Global, ord int) []core.Ob {
+func (c *Ctx) poolObject(fn *ssa.Function, get *ssa.Call, pool *ssa.Global, ord int, resetByGetter bool) []core.Ob {
 	base := fmt.Sprintf("%s#pool(%s)%d", core.FnName(fn), pool.Name(), ord)
 	mk := func(kind, want string) core.Ob {
 		return core.Ob{Rule: "R-POOL", Key: base + "." + kind, Pos: c.P.Pos(get.Pos()), Func: core.FnName(fn), Armed: true, Want: want, Status: core.OK}
@@ -229,7 +317,7 @@ func (c *Ctx) poolObject(fn *ssa.Function, get *ssa.Call, pool *ssa.Global, ord 
 		s := in[b]
 		for _, insn := range b.Instrs {
 			if insn == ssa.Instruction(get) {
-				s.got, s.fresh, s.put = true, true, false
+				s.got, s.fresh, s.put = true, !resetByGetter, false
 				continue
 			}
 			switch x := insn.(type) {
@@ -238,9 +326,17 @@ func (c *Ctx) poolObject(fn *ssa.Function, get *ssa.Call, pool *ssa.Global, ord 
 					s.put = true
 					continue
 				}
+				if c.putsBack(x.Common(), pool, isObj) {
+					s.put = true
+					continue
+				}
 			case *ssa.Call:
 				cc := x.Common()
 				if p, ok := poolOf(cc, "Put"); ok && p == pool && len(cc.Args) > 1 && isObj(cc.Args[1]) {
+					s.put = true
+					continue
+				}
+				if c.putsBack(cc, pool, isObj) {
 					s.put = true
 					continue
 				}
@@ -289,6 +385,22 @@ func (c *Ctx) poolObject(fn *ssa.Function, get *ssa.Call, pool *ssa.Global, ord 
 		}
 	}
 	return []core.Ob{esc, reset, put}
+}
+
+// putsBack: a call of a release wrapper with the pooled object.
+func (c *Ctx) putsBack(cc *ssa.CallCommon, pool *ssa.Global, isObj func(ssa.Value) bool) bool {
+	if cc.IsInvoke() {
+		return false
+	}
+	sc := cc.StaticCallee()
+	for i, a := range cc.Args {
+		if isObj(a) {
+			if p, ok := c.poolPutter(sc, i); ok && p == pool {
+				return true
+			}
+		}
+	}
+	return false
 }
 
 // globalMutation: package-level variables of map/slice type in the shared
